@@ -238,6 +238,43 @@ pub fn known_classifiers(prop: &str) -> BTreeMap<String, KnownFinding> {
     load_known().into_iter().filter(|k| k.property == prop && k.status == "known").map(|k| (k.classifier.clone(), k)).collect()
 }
 
+/// Re-run the stored replay of every listed finding of `prop`. A `known` entry that still
+/// reproduces yields a KNOWN-FINDING hit; a `fixed` entry that reproduces again is a regression
+/// and is returned as a violation. Entries that no longer reproduce only print a note.
+pub fn run_stored_replays(
+    prop: &str,
+    replay: &dyn Fn(&Violation) -> bool,
+    hits: &mut BTreeMap<String, (KnownFinding, u64)>,
+) -> Vec<Violation> {
+    let mut out = vec![];
+    for k in load_known().into_iter().filter(|k| k.property == prop) {
+        let Some(rel) = &k.replay else { continue };
+        let path = verif_root().join(rel);
+        let Ok(text) = std::fs::read_to_string(&path) else {
+            eprintln!("HARNESS-ERROR stored replay {} of finding {} is missing", path.display(), k.id);
+            std::process::exit(2)
+        };
+        let Ok(v) = serde_json::from_str::<Violation>(&text) else {
+            eprintln!("HARNESS-ERROR stored replay {} does not parse", path.display());
+            std::process::exit(2)
+        };
+        let reproduces = replay(&v);
+        match (k.status.as_str(), reproduces) {
+            ("known", true) => {
+                hits.entry(k.classifier.clone()).or_insert((k.clone(), 0)).1 += 1;
+            }
+            ("known", false) => println!("note: known finding {} no longer reproduces from its stored replay {}", k.id, rel),
+            ("fixed", true) => {
+                let mut v2 = v.clone();
+                v2.message = format!("regression of fixed finding {} ({}): {}", k.id, k.commit.clone().unwrap_or_default(), v.message);
+                out.push(v2);
+            }
+            _ => {}
+        }
+    }
+    out
+}
+
 // ---------------------------------------------------------------------------- reporting
 
 pub struct Report {
